@@ -43,6 +43,9 @@ func (x *Exec) newError(st *State, t types.Type) *Val {
 }
 
 func (x *Exec) model(fn *ssa.Function, name string) modelFn {
+	if m := x.strModels(fn, name); m != nil {
+		return m
+	}
 	// logging and metrics: A1 effect-free
 	if isLogOrMetric(name) {
 		if strings.Contains(name, "glog.Fatal") || strings.Contains(name, "glog.Exit") {
